@@ -242,16 +242,16 @@ func parserLayers(tier string, menu Menu) []Layer {
 			{Name: "hash-b0", Kinds: HashKinds, BufSizes: allQuickBuf, Level: 1, Inputs: Union(Binary(10), Ternary(6), ZeroA(8)), Menu: menu, Bound: 0, NoTrack: true},
 			{Name: "hash-b1", Kinds: HashKinds, BufSizes: allQuickBuf, Level: 0, Inputs: Union(Binary(8), Ternary(5), ZeroA(6)), Menu: menu, Bound: 1},
 			{Name: "hash-b2", Kinds: HashKinds, BufSizes: []int{2, 3, 5, 8}, Level: 0, Inputs: Union(Binary(7), ZeroA(5)), Menu: menu, Bound: 2, NoTrack: true},
-			{Name: "hash-b3", Kinds: HashKinds, BufSizes: []int{3, 5}, Level: 0, Inputs: Binary(6), Menu: menu, Bound: 3, NoTrack: true},
+			{Name: "hash-b3", Kinds: HashKinds, BufSizes: []int{3, 5}, Level: 2, Inputs: Binary(5), Menu: menu, Bound: 3, NoTrack: true},
 			{Name: "hash-long", Kinds: HashKinds, BufSizes: []int{16, 40, 100}, Level: 0, Inputs: StructuredSet(17, 33, 40, 70, 130, 200), Menu: menu, Bound: 1},
 			{Name: "sa-b0", Kinds: suffixKinds, BufSizes: allQuickBuf, Level: 1, Inputs: Union(Binary(7), Ternary(4), ZeroA(5)), Menu: menu, Bound: 0},
 			{Name: "sa-b1", Kinds: suffixKinds, BufSizes: []int{2, 3, 5, 8}, Level: 0, Inputs: Union(Binary(6), ZeroA(4)), Menu: menu, Bound: 1},
-			{Name: "sa-b2", Kinds: suffixKinds, BufSizes: []int{3, 5}, Level: 0, Inputs: Binary(5), Menu: menu, Bound: 2},
+			{Name: "sa-b2", Kinds: suffixKinds, BufSizes: []int{3}, Level: 0, Inputs: Binary(4), Menu: menu, Bound: 2},
 			{Name: "sa-long", Kinds: suffixKinds, BufSizes: []int{16, 100}, Level: 0, Inputs: StructuredSet(17, 40, 130), Menu: menu, Bound: 0},
-			{Name: "sa-multiblock", Kinds: suffixKinds, Geos: multiBlockGeos, Level: 1, Inputs: Union(Binary(10), Ternary(6)), Menu: menu.and(Menu{NTL: true, ParseNil: true, StopEarly: true, ShrinkDev: true}), Bound: 2, CfgPerShard: 1},
+			{Name: "sa-multiblock", Kinds: suffixKinds, Geos: multiBlockGeos, Level: 0, Inputs: Union(Binary(8), Ternary(5)), Menu: menu.and(Menu{NTL: true, ParseNil: true, StopEarly: true, ShrinkDev: true}), Bound: 2, CfgPerShard: 1},
 			{Name: "large", Kinds: Kinds, CfgsFn: largeConfigs, Inputs: Union(LargeSet(70000), LargeSet(200003)), Menu: menu, Bound: 1, CfgPerShard: 1, NoTrack: true},
-			{Name: "hash-trickle", Kinds: HashKinds, BufSizes: []int{3, 5, 8, 16}, Level: 0, Inputs: Union(Binary(10), ZeroA(6)), Menu: trickle(menu), Bound: 2},
-			{Name: "sa-trickle", Kinds: suffixKinds, Geos: multiBlockGeos, Level: 1, Inputs: Union(Binary(9), Ternary(5)), Menu: trickle(menu), Bound: 2, CfgPerShard: 1},
+			{Name: "hash-trickle", Kinds: HashKinds, BufSizes: []int{5, 8}, Level: 2, Inputs: Union(Binary(8), ZeroA(5)), Menu: trickle(menu), Bound: 2, NoTrack: true},
+			{Name: "sa-trickle", Kinds: suffixKinds, Geos: multiBlockGeos, Level: 0, Inputs: Union(Binary(8), Ternary(5)), Menu: trickle(menu), Bound: 2, CfgPerShard: 1},
 		}
 	}
 	return []Layer{
